@@ -2,7 +2,7 @@
 
 use path_clean::clean;
 use std::collections::{BTreeMap, HashSet};
-use std::fs::{canonicalize as canonicalize_path, symlink_metadata, File};
+use std::fs::{canonicalize as canonicalize_path, File};
 use std::io::{self, BufReader, Write};
 use std::process::Command;
 use walkdir::WalkDir;
@@ -129,13 +129,10 @@ pub fn record_artifacts(
                     walker.skip_current_dir();
                 } else {
                     visited_sym_links.insert(String::from(&path));
-                    // s_path: the actual path the symbolic link is pointing to
-                    let s_path =
-                        match std::fs::read_link(&path)?.as_path().to_str() {
-                            Some(str) => String::from(str),
-                            None => break,
-                        };
-                    if symlink_metadata(s_path)?.file_type().is_file() {
+                    // Follow the link the way the operating system does:
+                    // relative targets are relative to the link's directory,
+                    // and a link may point to another link.
+                    if std::fs::metadata(&path)?.file_type().is_file() {
                         let (virtual_target_path, hashes) = record_artifact(
                             &path,
                             hash_algorithms,
